@@ -46,6 +46,7 @@ NEEDS = {
 "C20-1": "Layer with z0 != 0",
 "C20-2": "loop_center with non-zero x or y",
 }
+ROUND = 1
 MISSED_FIRST = {"C01-1", "C01-2", "C02-2", "C03-1", "C03-2", "C04-2", "C05-1", "C06-1", "C09-2", "C10-2", "C16-1", "C19-2", "C20-1"}
 base_fail = open("/tmp/confirm/results/BASE.failing.txt").read() if os.path.exists("/tmp/confirm/results/BASE.failing.txt") else None
 rows = []
